@@ -80,6 +80,15 @@ func cells(thorough bool) []Cell {
 			out = append(out, Cell{Type: "const", From: r, Duration: d})
 		}
 	}
+	// durations that are not a whole number of milliseconds, with rates high enough for the
+	// sub-millisecond part to hold operations
+	for _, r := range []float64{1000, 10000, 100000} {
+		for _, d := range []string{"2.5ms", "1500us", "1.0005s", "999999us", "1000001ns"} {
+			out = append(out, Cell{Type: "const", From: r, Duration: d})
+			out = append(out, Cell{Type: "line", From: r, To: 2 * r, Duration: d})
+			out = append(out, Cell{Type: "step", From: r, To: 2 * r, Step: int64(r), Duration: d})
+		}
+	}
 	lv := []float64{0, 0.5, 1, 1.5, 2, 3.2, 5, 10}
 	steps := []int64{1, 2, 5}
 	if thorough {
